@@ -841,6 +841,78 @@ theorem recursive_working_view_first (ctes temps : List String) (r n : String) (
     tableKind (some r) ctes temps n = .recursive := by
   simp [tableKind, h]
 
+/-! ## what the recursive name denotes inside nested scopes (createScope / CreateNode / CreateChild) -/
+
+theorem tableKind_none_ne_recursive (ctes temps : List String) (n : String) :
+    tableKind none ctes temps n ≠ .recursive := by
+  unfold tableKind
+  cases nameIn ctes n <;> cases nameIn temps n <;> simp
+
+theorem derive_inherits (s : NameScope) (st : ScopeStep) :
+    (s.derive st).recName = s.recName ∧ (s.derive st).working = s.working ∧ (s.derive st).temps = s.temps ∧
+      (s.derive st).limitCount = s.limitCount := by
+  cases st <;> simp [NameScope.derive]
+
+/-- the recursion fields (and the temporary tables) survive every chain of scope constructors -/
+theorem deriveAll_inherits (s : NameScope) (steps : List ScopeStep) :
+    (s.deriveAll steps).recName = s.recName ∧ (s.deriveAll steps).working = s.working ∧
+      (s.deriveAll steps).temps = s.temps ∧ (s.deriveAll steps).limitCount = s.limitCount := by
+  induction steps generalizing s with
+  | nil => simp [NameScope.deriveAll]
+  | cons st rest ih =>
+    have h1 := derive_inherits s st
+    have h2 := ih (s.derive st)
+    simp only [NameScope.deriveAll, List.foldl_cons] at h2 ⊢
+    exact ⟨h2.1.trans h1.1, h2.2.1.trans h1.2.1, h2.2.2.1.trans h1.2.2.1, h2.2.2.2.trans h1.2.2.2⟩
+
+/-- **the inner reference**: inside the recursive member of `WITH RECURSIVE r`, a FROM name equal to `r` (letter
+    case ignored) denotes the records of the previous iteration at ANY nesting depth - whatever chain of per-record
+    sub-query scopes, nested queries (each with common table expressions of its own, also ones called `r`) and
+    blocks lies between, and whatever temporary tables / common table expressions of the enclosing scope carry the
+    same name -/
+theorem recursive_reference_any_depth (s : NameScope) (r n : String) (g : List Row) (steps : List ScopeStep)
+    (h : eqFold r n = true) :
+    ((s.forStep r g).deriveAll steps).denotes n = .previousIteration g := by
+  have hi := deriveAll_inherits (s.forStep r g) steps
+  have hr : (s.forStep r g).recName = some r := by simp [NameScope.forStep, NameScope.derive]
+  have hw : (s.forStep r g).working = some g := by simp [NameScope.forStep, NameScope.derive]
+  simp [NameScope.denotes, NameScope.kindOf, hi.1, hi.2.1, hr, hw, tableKind, h]
+
+/-- … and every other name is looked up as if there were no recursion -/
+theorem recursive_other_name_unaffected (s : NameScope) (r n : String) (g : List Row) (steps : List ScopeStep)
+    (h : eqFold r n = false) :
+    ((s.forStep r g).deriveAll steps).denotes n =
+      .object (tableKind none ((s.forStep r g).deriveAll steps).ctes s.temps n) := by
+  have hi := deriveAll_inherits (s.forStep r g) steps
+  have hr : (s.forStep r g).recName = some r := by simp [NameScope.forStep, NameScope.derive]
+  have hw : (s.forStep r g).working = some g := by simp [NameScope.forStep, NameScope.derive]
+  have ht : (s.forStep r g).temps = s.temps := by simp [NameScope.forStep, NameScope.derive]
+  have hk : tableKind (some r) ((s.forStep r g).deriveAll steps).ctes s.temps n =
+      tableKind none ((s.forStep r g).deriveAll steps).ctes s.temps n := by simp [tableKind, h]
+  simp only [NameScope.denotes, NameScope.kindOf, hi.1, hi.2.1, hi.2.2.1, hr, hw, ht, hk]
+  cases hk2 : tableKind none ((s.forStep r g).deriveAll steps).ctes s.temps n <;> try rfl
+  exact absurd hk2 (tableKind_none_ne_recursive _ _ _)
+
+/-- inside the ANCHOR member (at any depth) there is no working view yet: the name is what it was before - a
+    common table expression, a temporary table or a file called `r` -/
+theorem anchor_reference_is_outer (s : NameScope) (r n : String) (steps : List ScopeStep) :
+    ((s.forAnchor r).deriveAll steps).denotes n =
+      .object (tableKind none ((s.forAnchor r).deriveAll steps).ctes s.temps n) := by
+  have hi := deriveAll_inherits (s.forAnchor r) steps
+  have hw : (s.forAnchor r).working = none := by simp [NameScope.forAnchor, NameScope.derive]
+  have ht : (s.forAnchor r).temps = s.temps := by simp [NameScope.forAnchor, NameScope.derive]
+  simp [NameScope.denotes, NameScope.kindOf, hi.2.1, hi.2.2.1, hw, ht]
+
+/-- the decoy witness: a temporary table AND common table expressions called `t`, three scopes deep -/
+example (t : String) (g : List Row) :
+    (({ recName := none, working := none, ctes := [t], temps := [t] } : NameScope).forStep t g
+      |>.deriveAll [.record, .node [t], .record]).denotes t = .previousIteration g :=
+  recursive_reference_any_depth _ t t g _ (by simp [eqFold])
+example (t : String) : (({ recName := none, working := none, ctes := [], temps := [t] } : NameScope).forAnchor t
+    |>.deriveAll [.record]).denotes t = .object .temp := by
+  rw [anchor_reference_is_outer]
+  simp [NameScope.deriveAll, NameScope.forAnchor, NameScope.derive, tableKind, nameIn, eqFold]
+
 /-- a condition without open references evaluates, with the short-circuits of eval.go, to the total value -/
 theorem lazy_eval_agrees (subs : SubEnv) (lw : Nat) (r : Row) (c : CondE) (h : condPure c = true) :
     evalCondE subs lw r c = .ok (evalCond lw r c) := evalCondE_pure subs lw r c h
@@ -1206,6 +1278,34 @@ theorem gen_table_kind_order_eq_model (recName : Option String) (ctes temps : Li
   repeat (first | rfl | split)
 
 theorem gen_load_object_eq_ref : Gen.loadObjectBody = Ref.loadObjectBody := rfl
+
+/-- the three scope constructors, read field by field from their `&ReferenceScope{…}` literals, ARE the model's
+    `NameScope.derive`: the recursive table, its working view and the limit count are inherited by all of them;
+    per-record scopes keep the common table expressions, a node adds a layer, a child block starts without -/
+theorem gen_scope_derive_eq_model (s : NameScope) (defined : List String) :
+    deriveBy Gen.createScopeOrigins [] s = s.derive .record ∧
+    deriveBy Gen.createNodeOrigins defined s = s.derive (.node defined) ∧
+    deriveBy Gen.createChildOrigins [] s = s.derive .child := ⟨rfl, rfl, rfl⟩
+
+/-- … and so are the transaction, the file-path cache and the statement's time stamp (NOW() is one value per statement) -/
+theorem gen_scope_inherits_tx_cache_now :
+    ∀ o ∈ [Gen.createScopeOrigins, Gen.createNodeOrigins, Gen.createChildOrigins],
+      o.tx = .inherited ∧ o.cachedFilePath = .inherited ∧ o.now = .inherited := by decide
+
+/-- a per-record scope sees the records of the enclosing queries through what it is given, a node keeps them, a
+    block starts without -/
+theorem gen_scope_records :
+    Gen.createScopeOrigins.records = .fresh ∧ Gen.createNodeOrigins.records = .inherited ∧
+    Gen.createChildOrigins.records = .zero := ⟨rfl, rfl, rfl⟩
+
+theorem gen_scope_bodies_eq_ref :
+    Gen.createScopeBody = Ref.createScopeBody ∧ Gen.createChildBody = Ref.createChildBody ∧
+    Gen.createNodeBody = Ref.createNodeBody := ⟨rfl, rfl, rfl⟩
+
+/-- where the working view is set and the steps are counted: `selectSet`, `selectSetForRecursion`, `InlineTableMap.Set` -/
+theorem gen_recursion_bodies_eq_ref :
+    Gen.selectSetBody = Ref.selectSetBody ∧ Gen.selectSetForRecursionBody = Ref.selectSetForRecursionBody ∧
+    Gen.inlineTableSetBody = Ref.inlineTableSetBody := ⟨rfl, rfl, rfl⟩
 
 /-- `View.filter`, `InnerJoin`, `OuterJoin` keep a record exactly when the model's `holds` says so -/
 theorem gen_keep_tests_eq_model (c : Cond) (r : Row) :
